@@ -206,3 +206,11 @@ def check(cx):
     cx.advisory(r3, "record-size-unchecked", "crates/axmos-db/src/storage/wal.rs",
                 "under the property's crash model a block is written whole, so no failing crash image can be "
                 "exhibited; reported for information only")
+
+    # ---- C08.9 / C08.10 (constructs shared with C09.5 and C02.2) -------------------------------------------------------
+    from . import c09, c02
+    cx.include(c09, {"C09.5"}, "C08.9", "shared with C09.5: replaying an INSERT whose row already reached the data file still does the statement's "
+               "bookkeeping (index maintenance, next row id); a redo that returns early leaves a database that reopens but silently "
+               "drops later inserts", floor=1)
+    cx.include(c02, {"C02.2"}, "C08.10", "shared with C02.2: the analysis pass classifies every record kind and gives every transaction it classifies an "
+               "LSN chain, also when its BEGIN was cut off by a checkpoint; otherwise redo/undo stop with an error and open() fails", floor=4)
